@@ -190,3 +190,77 @@ Section SGP.
     - rewrite seq_length. lia.
   Qed.
 End SGP.
+
+(** ** the hull merge *)
+Section SGM.
+  Context {F : Type} {NF : Num F}.
+  Variable dist : F.
+  Variable all : list (@spt F * bool).
+  Let dflt : @spt F * bool := (mk3 f0 f0 f0, false).
+
+  Definition hull_close (i j : nat) : bool :=
+    snd (nth j all dflt) && sg_close dist (fst (nth i all dflt)) (fst (nth j all dflt)).
+
+  (** [find_dup] returns the first candidate that is a hull node within the tolerance *)
+  Lemma find_dup_spec p : forall cands base j,
+    find_dup dist p cands base = Some j ->
+    base <= j < base + length cands /\
+    (let q := nth (j - base) cands dflt in snd q && sg_close dist p (fst q) = true) /\
+    (forall k, base <= k < j -> let q := nth (k - base) cands dflt in snd q && sg_close dist p (fst q) = false).
+  Proof.
+    induction cands as [|[q s] r IH]; intros base j H; cbn [find_dup] in H; [discriminate|].
+    destruct (s && sg_close dist p q) eqn:E.
+    - injection H as <-. cbn [length]. split; [lia|]. rewrite Nat.sub_diag. cbn [nth fst snd]. split; [exact E|]. intros k Hk. lia.
+    - destruct (IH (S base) j H) as [R [A B]]. cbn [length]. split; [lia|]. split.
+      + replace (j - base) with (S (j - S base)) by lia. cbn [nth]. exact A.
+      + intros k Hk. destruct (Nat.eq_dec k base) as [->|Hne].
+        * rewrite Nat.sub_diag. cbn [nth fst snd]. exact E.
+        * replace (k - base) with (S (k - S base)) by lia. cbn [nth]. apply B. lia.
+  Qed.
+
+  Lemma nth_dups_from rest : forall i0 i, i < length rest ->
+    nth i (dups_from dist all rest i0) None = dup_of dist all (i0 + i) (nth i rest dflt).
+  Proof.
+    induction rest as [|ps r IH]; intros i0 i Hi; [cbn in Hi; lia|].
+    cbn [dups_from]. destruct i as [|i]; cbn [nth]; [rewrite Nat.add_0_r; reflexivity|].
+    cbn [length] in Hi. rewrite IH by lia. f_equal. lia.
+  Qed.
+
+  Lemma nth_dups i : i < length all -> nth i (dups dist all) None = dup_of dist all i (nth i all dflt).
+  Proof. intros Hi. unfold dups. rewrite nth_dups_from by exact Hi. reflexivity. Qed.
+
+  Lemma nth_firstn {A} (l : list A) n k d : k < n -> nth k (firstn n l) d = nth k l d.
+  Proof.
+    revert n k. induction l as [|a r IH]; intros n k H; [destruct n, k; reflexivity|].
+    destruct n as [|n]; [lia|]. destruct k as [|k]; [reflexivity|]. cbn [firstn nth]. apply IH. lia.
+  Qed.
+
+  (** what it means for node i to be a double point of node j *)
+  Lemma dup_spec i j : i < length all -> nth i (dups dist all) None = Some j ->
+    j + 1 < i /\ snd (nth i all dflt) = true /\ hull_close i j = true /\ (forall k, k < j -> hull_close i k = false).
+  Proof.
+    intros Hi H. rewrite nth_dups in H by exact Hi. unfold dup_of in H.
+    destruct (1 <=? i) eqn:E1; [|discriminate]. destruct (snd (nth i all dflt)) eqn:E2; [|discriminate]. cbn [andb] in H.
+    apply Nat.leb_le in E1.
+    destruct (find_dup_spec _ _ _ _ H) as [R [A B]]. rewrite Nat.sub_0_r in A.
+    assert (Lf : length (firstn (i - 1) all) = i - 1) by (rewrite firstn_length; lia).
+    rewrite Lf in R. split; [lia|]. split; [reflexivity|]. split.
+    - unfold hull_close. cbv zeta in A. rewrite nth_firstn in A by lia. exact A.
+    - intros k Hk. specialize (B k ltac:(lia)). cbv zeta in B. rewrite Nat.sub_0_r, nth_firstn in B by lia. exact B.
+  Qed.
+
+  (** if "a hull node within the tolerance" is transitive, no node is merged into a node that is itself merged away:
+      the renumbering never reads an unwritten entry *)
+  Theorem targets_ok_of_transitivity :
+    (forall i j k, hull_close i j = true -> hull_close j k = true -> hull_close i k = true) ->
+    targets_ok (dups dist all) = true.
+  Proof.
+    intros Tr. unfold targets_ok. apply forallb_forall. intros d Hd.
+    destruct d as [j|]; [|reflexivity].
+    destruct (In_nth _ _ None Hd) as [i [Hi Ei]]. rewrite dups_length in Hi.
+    destruct (dup_spec i j Hi Ei) as [Lj [Si [Cij Mi]]].
+    destruct (nth j (dups dist all) None) as [k|] eqn:Ej; [|reflexivity].
+    exfalso. destruct (dup_spec j k ltac:(lia) Ej) as [Lk [Sj [Cjk _]]].
+    pose proof (Tr i j k Cij Cjk) as Cik. rewrite (Mi k ltac:(lia)) in Cik. discriminate.
+  Qed.
+End SGM.
